@@ -965,3 +965,53 @@ Proof.
     + vm_compute. lia.
 Qed.
 End C04_translated_composed3.
+
+(* ---- lbuf_undo / lbuf_redo with the translated lbuf_replace linked in, groups of ANY size, side conditions on the ENTRY memory and the model only
+   (TrCmp4Marks.v, TrCmp4Bound.v).  The mark helpers lbuf_markcopy / lbuf_loadpos / lbuf_loadmark are proved once more with the values they leave
+   bounded, so one iteration (splice, lbuf_loadpos, 32 x lbuf_loadmark) takes `bnd B` -- every mark row of the struct an int <= B, the line count
+   <= B, every mark row saved in a log record <= B, the capacity cell <= max K (2 B) -- to `bnd (B + n_ins)`.  undo_sizes / redo_sizes are
+   conditions on the MODEL: at every record of the group 2 (B + n_ins) <= INT_MAX for the bound reached so far, B + n_ins + 34 <= fuelR, the
+   record's text shorter than 2 GB.  With undo_ok / redo_ok (ranges) these are all the side conditions: no hypothesis about intermediate memories. *)
+From NV Require TrCmp4Marks TrCmp4Bound.
+Section C04_translated_bounded.
+Import Lia CLite CLiteProps CLiteExt GenCFuncs TrLbufBase TrUndoBase TrUndo TrSpliceMarks TrSpliceAll TrSpliceModels.
+Import TrCmp4 TrCmp4Loop TrCmp4Edit TrCmp4Marks TrCmp4Bound.
+Local Open Scope Z_scope.
+
+Theorem C04_tr_lbuf_undo_bounded : forall (ext : nat -> list val -> mem -> res (val * mem)) (fuelR dR : nat), ext_is_replace ext fuelR dR ->
+  forall (bl bh : nat) (hblk : block) (d fuel : nat) (K : Z), K <= 2147483647 ->
+  forall (m : mem) (blk : block) (lb : lbuf) (B : Z),
+  urep Tc m bl blk bh hblk lb -> undo_ok lb -> 0 <= B -> bnd B K m blk hblk lb ->
+  undo_sizes fuelR (hist_u lb) (seq_at (hist lb) (hist_u lb - 1)) B lb -> (hist_u lb + 33 < fuel)%nat ->
+  match lbuf_undo lb with
+  | Some lb' => exists (m' : mem) (blk' : block),
+      callx ext cprog fuel (S (S (S (S d)))) F_lbuf_undo [VPtr bl 0] m = Ok (VInt 0, m') /\ urep Tc m' bl blk' bh hblk lb'
+  | None => callx ext cprog fuel (S (S (S (S d)))) F_lbuf_undo [VPtr bl 0] m = Ok (VInt 1, m)
+  end.
+Proof. exact tr_lbuf_undo_bounded. Qed.
+Print Assumptions C04_tr_lbuf_undo_bounded.
+
+Theorem C04_tr_lbuf_redo_bounded : forall (ext : nat -> list val -> mem -> res (val * mem)) (fuelR dR : nat), ext_is_replace ext fuelR dR ->
+  forall (bl bh : nat) (hblk : block) (d fuel : nat) (K : Z), K <= 2147483647 ->
+  forall (m : mem) (blk : block) (lb : lbuf) (B : Z),
+  urep Tc m bl blk bh hblk lb -> redo_ok lb -> 0 <= B -> bnd B K m blk hblk lb ->
+  redo_sizes fuelR (length (hist lb) - hist_u lb) (seq_at (hist lb) (hist_u lb)) B lb -> (length (hist lb) - hist_u lb < fuel)%nat ->
+  match lbuf_redo lb with
+  | Some lb' => exists (m' : mem) (blk' : block),
+      callx ext cprog fuel (S (S (S (S d)))) F_lbuf_redo [VPtr bl 0] m = Ok (VInt 0, m') /\ urep Tc m' bl blk' bh hblk lb'
+  | None => callx ext cprog fuel (S (S (S (S d)))) F_lbuf_redo [VPtr bl 0] m = Ok (VInt 1, m)
+  end.
+Proof. exact tr_lbuf_redo_bounded. Qed.
+Print Assumptions C04_tr_lbuf_redo_bounded.
+
+(* the bound is satisfiable: the concrete buffer of C04_tr_edit_undo_redo_runs with B = 2 (two lines, every row -1, an empty log, capacity 3) *)
+Example C04_tr_bound_nonvacuous : bnd 2 3 cx_mem cx_struct (repeat VUndef 36) cx_lb /\ size_ok 100 2 (Some [120; 10; 121]%N).
+Proof.
+  split.
+  - split; [|split; [cbn; lia|split]].
+    + intros k Hk. do 32 (destruct k as [|k]; [exists (-1); split; [reflexivity|unfold i32; lia]|]). lia.
+    + intros i Hi. cbn in Hi. lia.
+    + intros cap Hc. change (nth_error cx_struct L_ln_sz) with (Some (VInt 3)) in Hc. injection Hc as Hc. lia.
+  - split; [cbn; lia|split; [cbn; lia|]]. intros t Ht. injection Ht as <-. cbn. lia.
+Qed.
+End C04_translated_bounded.
